@@ -521,4 +521,260 @@ theorem getD_alookup_aset (sect s : Nat) (v : List (List Nat)) (o : List (Nat ×
   · subst h; simp [alookup_aset_same]
   · simp [h, alookup_aset_other _ _ _ _ h]
 
+/-! ### split_block -/
+
+theorem block?_of_blocks {a b : IR} (h : b.blocks = a.blocks) (c : Nat) : b.block? c = a.block? c := by
+  unfold IR.block?; rw [h]
+
+theorem splitBlock_sinv {ir ir' : IR} {b off nb : Nat} {added : Bool} {pend : List Nat}
+    (h : ir.splitBlock b off = .ok (ir', nb, added)) (hs : SymsOk ir pend) (ho : OrdOk ir) (hI : IdsBelow ir) :
+    SymsOk ir' pend ∧ OrdOk ir' ∧ SecLe ir ir' ∧ (∀ s, Sec ir b s → Sec ir' nb s) := by
+  cases hb : ir.block? b with
+  | none => unfold IR.splitBlock at h; rw [hb] at h; cases h
+  | some blk =>
+    obtain ⟨hnb, _, hsy, hbl⟩ := splitBlock_core h hb
+    have hiv := splitBlock_intervals h
+    obtain ⟨sect, hsect, hord⟩ := splitBlock_order h hb
+    have hfresh : ir.block? nb = none := by rw [hnb]; exact hI.fresh (Nat.le_refl _)
+    have hne : nb ≠ b := by intro he; rw [he] at hfresh; rw [hfresh] at hb; cases hb
+    have hlk : ∀ c, ir'.block? c = if c = b then some { blk with size := off }
+        else if c = nb then some { id := nb, isCode := blk.isCode, bi := blk.bi, off := blk.off + off, size := blk.size - off }
+        else ir.block? c := fun c => by
+      rw [block?_of_blocks hbl c]; exact splitBlocks_block? ir blk b nb off hb hfresh c
+    have hle : SecLe ir ir' := by
+      intro c s ⟨x, hx, hsx⟩
+      by_cases hc : c = b
+      · subst hc
+        rw [hb] at hx; injection hx with hx; subst hx
+        refine ⟨{ blk with size := off }, by rw [hlk]; simp, ?_⟩
+        rw [sectionOf_congr hiv]
+        exact (sectionOf_bi (ir := ir) (x := { blk with size := off }) (y := blk) rfl).trans hsx
+      · have hcn : c ≠ nb := by intro he; rw [he, hfresh] at hx; cases hx
+        exact ⟨x, by rw [hlk]; simp [hc, hcn]; exact hx, by rw [sectionOf_congr hiv]; exact hsx⟩
+    have hnew : ∀ s, Sec ir b s → Sec ir' nb s := by
+      intro s ⟨x, hx, hsx⟩
+      rw [hb] at hx; injection hx with hx; subst hx
+      refine ⟨{ id := nb, isCode := blk.isCode, bi := blk.bi, off := blk.off + off, size := blk.size - off },
+        by rw [hlk]; simp [hne], ?_⟩
+      rw [sectionOf_congr hiv]
+      exact (sectionOf_bi (ir := ir) (y := blk) rfl).trans hsx
+    have hbsec : Sec ir b sect := ⟨blk, hb, hsect⟩
+    refine ⟨?_, ?_, hle, hnew⟩
+    · intro y' hy' c hc
+      rw [hsy] at hy'
+      obtain ⟨y, hy, rfl⟩ := List.mem_map.mp hy'
+      unfold splitSym at hc
+      split at hc
+      · simp only [Referent.block.injEq] at hc
+        subst hc
+        exact Or.inl ⟨sect, hnew sect hbsec⟩
+      · rcases hs y hy c hc with ⟨s, hsec⟩ | hp
+        · exact Or.inl ⟨s, hle c s hsec⟩
+        · exact Or.inr hp
+    · intro s ch hch
+      rw [hord, getD_alookup_aset] at hch
+      split at hch
+      · rename_i hss
+        subst hss
+        obtain ⟨ch0, hch0, rfl⟩ := List.mem_map.mp hch
+        obtain ⟨hnd0, hm0⟩ := ho s ch0 hch0
+        have hnot : nb ∉ ch0 := fun hm => (hm0 nb hm).block hfresh
+        refine ⟨nodup_insAfter b [nb] (by simp) ch0 hnd0 (by intro x hx; simp at hx; subst hx; exact hnot), ?_⟩
+        intro x hx
+        rcases mem_insAfter b [nb] ch0 x hx with hx | hx
+        · exact hle x s (hm0 x hx)
+        · simp at hx; subst hx; exact hnew s hbsec
+      · obtain ⟨hnd0, hm0⟩ := ho s ch hch
+        exact ⟨hnd0, fun x hx => hle x s (hm0 x hx)⟩
+
+/-! ### join_blocks -/
+
+theorem joinBlocks_sinv {ir ir' : IR} {id1 id2 : Nat} {pend : List Nat}
+    (h : ir.joinBlocks id1 id2 = .ok ir') (hne : id1 ≠ id2) (hs : SymsOk ir pend) (ho : OrdOk ir) :
+    SymsOk ir' pend ∧ OrdOk ir' ∧ SecLeX id2 ir ir' := by
+  cases h1 : ir.block? id1 with
+  | none => unfold IR.joinBlocks at h; rw [h1] at h; cases h
+  | some b1 =>
+  cases h2 : ir.block? id2 with
+  | none => unfold IR.joinBlocks at h; rw [h1, h2] at h; cases h
+  | some b2 =>
+    obtain ⟨hj, hsy, hbl⟩ := joinBlocks_core h h1 h2
+    have hiv := joinBlocks_intervals h
+    obtain ⟨sect, hsect, hord⟩ := joinBlocks_order h h1 h2
+    obtain ⟨hbi, _, _, _⟩ := notJoinable_none hj
+    have e1 : b1.id = id1 := findB_id h1
+    have e2 : b2.id = id2 := findB_id h2
+    have hsec1 : Sec ir id1 sect := ⟨b1, h1, (sectionOf_bi hbi).trans hsect⟩
+    have hsec2 : Sec ir id2 sect := ⟨b2, h2, hsect⟩
+    -- lookups after the two replacements
+    have hA : (ir.setBlock { b1 with size := b1.size + b2.size }).block? id2 = some b2 := by
+      rw [block?_setBlock ir { b1 with size := b1.size + b2.size } b1 (by simpa [e1] using h1) id2]
+      simp [e1, Ne.symm hne]; exact h2
+    have hlk : ∀ c, ir'.block? c = if c = id2 then some { b2 with bi := none }
+        else if c = id1 then some { b1 with size := b1.size + b2.size } else ir.block? c := fun c => by
+      rw [block?_of_blocks hbl c,
+        block?_setBlock _ { b2 with bi := none } b2 (by simpa [e2] using hA) c,
+        block?_setBlock ir { b1 with size := b1.size + b2.size } b1 (by simpa [e1] using h1) c]
+      simp [e1, e2]
+    have hle : SecLeX id2 ir ir' := by
+      intro c s hc ⟨x, hx, hsx⟩
+      by_cases hc1 : c = id1
+      · subst hc1
+        rw [h1] at hx; injection hx with hx; subst hx
+        refine ⟨{ b1 with size := b1.size + b2.size }, by rw [hlk]; simp [hc], ?_⟩
+        rw [sectionOf_congr hiv]
+        exact (sectionOf_bi (ir := ir) (y := b1) rfl).trans hsx
+      · exact ⟨x, by rw [hlk]; simp [hc, hc1]; exact hx, by rw [sectionOf_congr hiv]; exact hsx⟩
+    refine ⟨?_, ?_, hle⟩
+    · intro y' hy' c hc
+      rw [hsy] at hy'
+      obtain ⟨y, hy, rfl⟩ := List.mem_map.mp hy'
+      unfold joinSym at hc
+      split at hc
+      · simp only [Referent.block.injEq] at hc
+        subst hc
+        exact Or.inl ⟨sect, hle _ sect (by rw [e1]; exact hne) (by rw [e1]; exact hsec1)⟩
+      · rename_i hr
+        have hc2 : c ≠ id2 := by intro he; subst he; apply hr; rw [hc]; simp
+        rcases hs y hy c hc with ⟨s, hsec⟩ | hp
+        · exact Or.inl ⟨s, hle c s hc2 hsec⟩
+        · exact Or.inr hp
+    · intro s ch hch
+      rw [hord, getD_alookup_aset] at hch
+      split at hch
+      · rename_i hss
+        subst hss
+        have hch1 := (List.mem_filter.mp hch).1
+        obtain ⟨ch0, hch0, rfl⟩ := List.mem_map.mp hch1
+        obtain ⟨hnd0, hm0⟩ := ho s ch0 hch0
+        refine ⟨hnd0.filter _, ?_⟩
+        intro x hx
+        obtain ⟨hx0, hxne⟩ := List.mem_filter.mp hx
+        exact hle x s (by simpa using hxne) (hm0 x hx0)
+      · rename_i hss
+        obtain ⟨hnd0, hm0⟩ := ho s ch hch
+        refine ⟨hnd0, fun x hx => hle x s ?_ (hm0 x hx)⟩
+        intro he; subst he
+        exact hss ((hm0 _ hx).unique hsec2)
+
+/-! ### remove_block -/
+
+theorem setBlock_blocks_congr {x ir : IR} (h : x.blocks = ir.blocks) (nb : Block) :
+    (x.setBlock nb).blocks = (ir.setBlock nb).blocks := by
+  unfold IR.setBlock; simp only [h]
+
+theorem removeBlock_blocks {ir ir' : IR} {b : Nat} {px r : Bool} {blk : Block}
+    (h : ir.removeBlock b px = .ok (ir', r)) (hb : ir.block? b = some blk) :
+    ir'.blocks = (ir.setBlock (if r then { blk with bi := none } else { blk with size := 0 })).blocks := by
+  unfold IR.removeBlock at h
+  rw [hb] at h
+  simp only [] at h
+  split at h
+  · cases h
+  · split at h
+    · injection h with h; injection h with h1 h2; subst h1; subst h2
+      simp only [if_true]
+      apply setBlock_blocks_congr
+      show (IR.removeStages _ _ _ _ _ _ _).blocks = _
+      rw [removeStages_blocks]; exact core_blocks (withProxy_core _ _)
+    · injection h with h; injection h with h1 h2; subst h1; subst h2
+      simp only [Bool.false_eq_true, if_false]
+      have : ∀ x : IR, (x.keepEmpty blk).blocks = (x.setBlock { blk with size := 0 }).blocks := by
+        intro x; unfold IR.keepEmpty; simp only []; split <;> rfl
+      rw [this]
+      apply setBlock_blocks_congr
+      rw [removeStages_blocks]; exact core_blocks (withProxy_core _ _)
+
+theorem removeBlock_sinv {ir ir' : IR} {b : Nat} {px r : Bool} {pend : List Nat}
+    (h : ir.removeBlock b px = .ok (ir', r)) (hs : SymsOk ir pend) (ho : OrdOk ir) :
+    SymsOk ir' pend ∧ OrdOk ir' ∧ SecLeX b ir ir' ∧ (r = false → SecLe ir ir') := by
+  cases hb : ir.block? b with
+  | none => unfold IR.removeBlock at h; rw [hb] at h; cases h
+  | some blk =>
+    have hid : blk.id = b := findB_id hb
+    have hbl := removeBlock_blocks h hb
+    have hiv := removeBlock_intervals h
+    have hsy := removeBlock_syms h hb
+    obtain ⟨sect, hsect, hord⟩ := removeBlock_order h hb
+    have hbsec : Sec ir b sect := ⟨blk, hb, hsect⟩
+    have hlk : ∀ c, ir'.block? c = if c = b then some (if r then { blk with bi := none } else { blk with size := 0 })
+        else ir.block? c := fun c => by
+      rw [block?_of_blocks hbl c,
+        block?_setBlock ir (if r then { blk with bi := none } else { blk with size := 0 }) blk
+          (by split <;> simpa [hid] using hb) c]
+      split <;> simp [hid]
+    have hle : SecLeX b ir ir' := by
+      intro c s hc ⟨x, hx, hsx⟩
+      exact ⟨x, by rw [hlk]; simp [hc]; exact hx, by rw [sectionOf_congr hiv]; exact hsx⟩
+    have hle0 : r = false → SecLe ir ir' := by
+      intro hr c s ⟨x, hx, hsx⟩
+      by_cases hc : c = b
+      · subst hc
+        rw [hb] at hx; injection hx with hx; subst hx
+        refine ⟨{ blk with size := 0 }, by rw [hlk]; simp [hr], ?_⟩
+        rw [sectionOf_congr hiv]
+        exact (sectionOf_bi (ir := ir) (y := blk) rfl).trans hsx
+      · exact hle c s hc ⟨x, hx, hsx⟩
+    obtain ⟨hprev, hnext⟩ := adjacent_spec ir blk sect hsect
+    refine ⟨?_, ?_, hle, hle0⟩
+    · -- symbols
+      cases r with
+      | false =>
+        simp only [Bool.false_eq_true, if_false] at hsy
+        exact hs.mono hsy (hle0 rfl)
+      | true =>
+        simp only [if_true] at hsy
+        intro y' hy' c hc
+        rw [hsy] at hy'
+        obtain ⟨y, hy, rfl⟩ := List.mem_map.mp hy'
+        unfold removeSym at hc
+        split at hc
+        · -- the symbol stood on the removed block: it goes where `removeTarget` says
+          simp only [] at hc
+          unfold removeTarget at hc
+          split at hc
+          · cases hc
+          · rename_i n hn1 hn2
+            simp only [Referent.block.injEq] at hc
+            subst hc
+            obtain ⟨ch, hch, hnc, hne⟩ := hnext _ (by assumption)
+            obtain ⟨hnd, hm⟩ := ho sect ch hch
+            exact Or.inl ⟨sect, hle _ sect (by rw [← hid]; exact hne hnd) (hm _ hnc)⟩
+          · rename_i p hp1 hp2 hp3
+            simp only [Referent.block.injEq] at hc
+            subst hc
+            obtain ⟨ch, hch, hpc, hne⟩ := hprev _ (by assumption)
+            obtain ⟨_, hm⟩ := ho sect ch hch
+            exact Or.inl ⟨sect, hle _ sect (by rw [← hid]; exact hne) (hm _ hpc)⟩
+          · cases hc
+        · rename_i hr
+          have hcb : c ≠ b := by intro he; subst he; apply hr; rw [hc]; simp
+          rcases hs y hy c hc with ⟨s, hsec⟩ | hp
+          · exact Or.inl ⟨s, hle c s hcb hsec⟩
+          · exact Or.inr hp
+    · -- ordering
+      cases r with
+      | false =>
+        simp only [Bool.false_eq_true, if_false] at hord
+        exact ho.mono hord (hle0 rfl)
+      | true =>
+        simp only [if_true] at hord
+        intro s ch hch
+        rw [hord, getD_alookup_aset] at hch
+        split at hch
+        · rename_i hss
+          subst hss
+          have hch1 := (List.mem_filter.mp hch).1
+          obtain ⟨ch0, hch0, rfl⟩ := List.mem_map.mp hch1
+          obtain ⟨hnd0, hm0⟩ := ho s ch0 hch0
+          refine ⟨hnd0.filter _, ?_⟩
+          intro x hx
+          obtain ⟨hx0, hxne⟩ := List.mem_filter.mp hx
+          exact hle x s (by simpa using hxne) (hm0 x hx0)
+        · rename_i hss
+          obtain ⟨hnd0, hm0⟩ := ho s ch hch
+          refine ⟨hnd0, fun x hx => hle x s ?_ (hm0 x hx)⟩
+          intro he; subst he
+          exact hss ((hm0 _ hx).unique hbsec)
+
 end GtirbVerif.IR
